@@ -93,9 +93,9 @@ theorem conformsB_sound (c : Ctx) (n : Nat) (t : GType) (nodes : List FieldNode)
     (h : conformsB c n t nodes v = true) : Conforms c t nodes v := conformsF_sound c n t nodes v h
 
 /-- soundness of the driver op: data accepted by `conformsData` conforms to the request's root selection -/
-theorem conformsData_sound (s : Schema) (doc : Document) (opName : String) (inputs : Vars) (data : List (String × JVal))
-    (h : conformsData s doc opName inputs data = true) :
-    ∃ c root sel, requestCtx s doc opName inputs default = some (c, root, sel) ∧
+theorem conformsData_sound (s : Schema) (doc : Document) (opName : String) (inputs : Vars) (w : World)
+    (data : List (String × JVal)) (h : conformsData s doc opName inputs w data = true) :
+    ∃ c root sel, requestCtx s doc opName inputs w = some (c, root, sel) ∧
       FieldsConform c root (rootGroups c root sel) data := by
   unfold conformsData at h
   split at h
